@@ -13,7 +13,11 @@ import (
 // exact suffix kept, nothing written when both queues are empty.
 func VH_C06_dequeue_locking(h *vrt.H) {
 	k, ctx := vhKeeper(h)
-	nRew, nUnl := h.Choose("rewards", 0, 17), h.Choose("unlocks", 0, 17)
+	maxQ := 17
+	if h.Thorough() {
+		maxQ = 24
+	}
+	nRew, nUnl := h.Choose("rewards", 0, maxQ), h.Choose("unlocks", 0, maxQ)
 	var q types.EthTxQueue
 	for i := 0; i < nRew; i++ {
 		q.Rewards = append(q.Rewards, &types.Reward{Id: uint64(100 + i), Recipient: make([]byte, 20), Goat: math.NewInt(int64(i)), Gas: math.NewInt(1)})
